@@ -43,7 +43,7 @@ MONITORED = [
     'isotropic sphere: Ellipsoid/Bohm/Khachaturyan energy = 2G(1+nu)/(1-nu) eps^2 V',
     'history purity on the real code: random call sequences on ONE StrainEnergy object (all setters in all input forms incl. property assignment and setShape by name / instance, setLebedevIntegration / setIntegrationIntervals / setOhmInverseFunction on the description, setAspectRatioResolution / setInterfacialEnergyMethod / clearCache, mixed with compute on one or several radii triples, the five energy variants, eqAR_bySearch / eqAR_byGR at repeated and varying aspect ratios): every observation equals that of a freshly constructed object given only the settings in force; the description kind follows the calls (finding history:eqAR_bySearch:stale-aspect-ratio-table: the aspect-ratio table of eqAR_bySearch is never invalidated)',
     'input-form equivalence on the real code: the same matrix / precipitate stiffness as 6x6, 3x3x3x3, nested lists, property assignment, elastic constants, three random moduli pairs (precipitate different from the matrix, with and without rotations, either side first) and the same eigenstrain / applied stress as scalar, 3-vector, matrix: stored tensor = the supplied tensor (expanded independently), same parameters, same energies',
-    'orientation of the particle axes on the real code: _beta(a,b,c,phi,theta) = sqrt((a n_x)^2+(b n_y)^2+(c n_z)^2) with n = the code\'s own _n, and unchanged under joint relabelling of (semi-axes, direction); compute / strainEnergyEllipsoid of tri-axial ellipsoids (random choice of the longest axis) and of spheroids about x, y, z, diagonal (e11 != e22 != e33) and full symmetric eigenstrain, isotropic / cubic / misaligned cubic matrix with equal or different precipitate stiffness, are unchanged when the coordinate axes are relabelled (24 proper cube operations + the three transpositions acting on semi-axes, eigenstrain and, for the misaligned crystal, the stiffness) on the three Lebedev tables, the octant and the whole-sphere mid-point grid of setIntegrationIntervals and an injected Gauss-Legendre rule: 1e-9 where the relabelling maps the node table onto itself (measured on the table: the shipped Lebedev tables are only invariant under the rotations about z), else the quadrature accuracy of the scheme (Lebedev 0.3 / 0.2 / 0.15 and reported under the finding lebedev-inexact-order* while the tables are inexact; octant grid 2e-2; 64x32 grid 4e-2; product rule 2e-5: the unchanged code stays below a third of each over 60 seeds); Eshelby tensor of prolate / oblate spheroids about each of x, y, z (Mura closed forms) and of tri-axial ellipsoids (elliptic integrals by adaptive quadrature) in an isotropic matrix, all 81 components, absolute tolerance per scheme 0.09 / 0.06 / 0.04 (Lebedev tables, measured worst 0.041 / 0.027 / 0.014), 1.5e-2 octant grid, 2e-2 whole-sphere grid, 1e-6 product rule (5e-5 tri-axial)',
+    'orientation of the particle axes on the real code: _beta(a,b,c,phi,theta) = sqrt((a n_x)^2+(b n_y)^2+(c n_z)^2) with n = the code\'s own _n, and unchanged under joint relabelling of (semi-axes, direction); compute / strainEnergyEllipsoid of tri-axial ellipsoids (random choice of the longest axis) and of spheroids about x, y, z, diagonal (e11 != e22 != e33) and full symmetric eigenstrain, isotropic / cubic / misaligned cubic matrix with equal or different precipitate stiffness, are unchanged when the coordinate axes are relabelled (24 proper cube operations + the three transpositions acting on semi-axes, eigenstrain and, for the misaligned crystal, the stiffness) on the three Lebedev tables, the octant and the whole-sphere mid-point grid of setIntegrationIntervals and an injected Gauss-Legendre rule: 1e-9 where the relabelling maps the node table onto itself (measured on the table: the shipped Lebedev tables are only invariant under the rotations about z), else the quadrature accuracy of the scheme (Lebedev 0.3 / 0.2 / 0.15 and reported under the finding lebedev-inexact-order* while the tables are inexact; octant grid 24x24 3e-2; whole-sphere grid 96x48 5e-2; product rule 2e-5: the unchanged code stays below a third of the last three over 60 seeds); Eshelby tensor of prolate / oblate spheroids about each of x, y, z (Mura closed forms) and of tri-axial ellipsoids (elliptic integrals by adaptive quadrature) in an isotropic matrix, all 81 components, absolute tolerance per scheme 0.12 / 0.08 / 0.05 (Lebedev tables, measured worst 0.06 / 0.03 / 0.02), 1.5e-2 octant grid, 2e-2 whole-sphere grid, 1e-6 product rule (5e-5 tri-axial)',
     'object independence on the real code: several live StrainEnergy objects configured in interleaved order, each read after all were configured, equal a fresh single object given the same calls and hold the eigenstrain supplied to them; eps^2 / s^3 scaling and the closed form evaluated across objects',
 ]
 ASSUMPTIONS = [
@@ -1951,7 +1951,7 @@ def scheme_setup(d, scheme, exact_nodes):
     elif scheme == 'grid-octant':
         d.setIntegrationIntervals(24, 24, True)
     elif scheme == 'grid-full':
-        d.setIntegrationIntervals(64, 32, False)
+        d.setIntegrationIntervals(96, 48, False)
     else:
         d.midPhiGrid, d.midThetaGrid, d.midWeights = exact_nodes
         d.dA = math.pi / 2
@@ -1980,13 +1980,15 @@ def nodes_invariant(n, w, Q):
     return a.shape == b.shape and bool(np.all(np.abs(a - b) < 5e-7))
 
 
-# tolerance on the energy spread for relabellings that do NOT map the node table to itself (quadrature accuracy; measured on the
-# unchanged code over seeds 0..40: low 0.12, mid 0.07, high 0.05 [the shipped Lebedev tables mis-integrate z^2 by 1.4 - 3.4 %:
-# finding lebedev-inexact-order*], octant grid 3e-3, full grid 9e-3 (iso 1.7e-2 at 48x24), product rule 1e-7)
-ORIENT_TOL = {'low': 0.3, 'mid': 0.2, 'high': 0.15, 'grid-octant': 2e-2, 'grid-full': 4e-2, 'exact': 2e-5}
-# absolute tolerance on Eshelby tensor components (measured worst: low 0.041, mid 0.027, high 0.014, full grid 6.3e-3, octant grid
-# 4e-3 on the components it can represent, product rule 6e-9 spheroid / 2.3e-6 tri-axial)
-ESHELBY_TOL = {'low': 0.09, 'mid': 0.06, 'high': 0.04, 'grid-octant': 1.5e-2, 'grid-full': 2e-2, 'exact': 1e-6}
+# tolerance on the energy spread for relabellings that do NOT map the node table to itself (quadrature accuracy of the scheme for
+# aspect ratios up to 4; the UNCHANGED code stays below a third of the octant / whole-sphere-grid / product-rule values over seeds 0..59;
+# the shipped Lebedev tables mis-integrate z^2 by 1.4 - 3.4 % [finding lebedev-inexact-order*], reach 0.47 / 0.22 / 0.17 on such
+# relabellings and are reported under that finding while the tables are recorded as inexact; with the tables repaired
+# (/verif/proposed_repairs/C16-lebedev-orbit-generators.diff) every relabelling maps them to themselves and the spread is 1e-13)
+ORIENT_TOL = {'low': 0.3, 'mid': 0.2, 'high': 0.15, 'grid-octant': 3e-2, 'grid-full': 5e-2, 'exact': 2e-5}
+# absolute tolerance on Eshelby tensor components (measured worst on the unchanged code: low 0.06, mid 0.03, high 0.02, whole-sphere
+# grid 3e-3, octant grid 4e-3 on the components it can represent, product rule 6e-9 spheroid / 2.3e-6 tri-axial)
+ESHELBY_TOL = {'low': 0.12, 'mid': 0.08, 'high': 0.05, 'grid-octant': 1.5e-2, 'grid-full': 2e-2, 'exact': 1e-6}
 SCHEMES = ['low', 'mid', 'high', 'grid-octant', 'grid-full', 'exact']
 
 
